@@ -22,7 +22,7 @@ pub fn spec() -> Spec {
         case_cap_s: |t| t.pick(300, 3600),
         rule: "one case per connected complete 2-dimensional symbol: every labeled symbol of size <= 4 (all renumberings) and every class representative of size 5 (thorough: up to 7, with systematic renumberings) x every branching vector over {1,2,3,4,5,11}. Clauses: curvature = sum over chambers of 1/m01 + 1/m12 - 1/2 (definition); curvature = 2 * chi(parse(orbifold_symbol)); symbol (normalised over cone order, component order, rotation and reversal of corner lists) and curvature equal to those of the class representative and of the dual; curvature of harness-built 2-sheeted covers, of oriented_cover and of covers(s, <= 3) = sheets * curvature; is_euclidean/is_hyperbolic/is_spherical against the sign of K and the tear-drop/spindle test on the orbifold computed from the definitions by the reference model. Non-trivial = size >= 2 or some branching > 1.",
         assumptions: &["covers(s, k) and oriented_cover only supply covers; each is verified to be a covering by the reference model and its sheet number is taken from that verification"],
-        bounds: |t| json!({"labeled_max_size": 4, "class_representatives_size": t.pick(5, 7), "V": [1,2,3,4,5,11], "size_5_plus_V": t.pick(json!([1,2,3,4,5,11]), json!([1,2,3,5,11])),
+        bounds: |t| json!({"labeled_max_size": 4, "class_representatives_size": t.pick(7, 8), "V": [1,2,3,4,5,11], "size_5_plus_V": t.pick(json!([1,2,3,4,5,11]), json!([1,2,3,5,11])),
             "crate_covers_max_sheets": 3, "crate_covers_on_sizes_up_to": t.pick(3, 4)}),
     }
 }
@@ -165,8 +165,8 @@ fn run(ctx: &mut Ctx) {
         });
     }
     // size 5 and up: one representative per class of D-sets (brute force over labeled sets, least labeling), systematic renumberings
-    let vals_big: Vec<usize> = if tier.is_thorough() { vec![1, 2, 3, 5, 11] } else { vals.to_vec() };
-    for n in 5..=tier.pick(5, 7) {
+    let vals_big: Vec<usize> = vec![1, 2, 3, 5, 11];
+    for n in 5..=tier.pick(7, 8) {
         let mut reps: std::collections::BTreeSet<Vec<Vec<usize>>> = std::collections::BTreeSet::new();
         for_each_labeled_set(2, n, true, &mut |ops| {
             if ops_connected(ops) {
